@@ -44,6 +44,10 @@ func (v *env) arg(e ast.Expr) string {
 	switch s {
 	case "d.base":
 		return "base"
+	case "filepath.Base(newDir)":
+		if v.alias["newDir"] == "newDir" {
+			return "newDirName"
+		}
 	case `d.target + ".new"`:
 		return "targetNew"
 	case "d.target":
@@ -190,7 +194,7 @@ inductive Fn where
   deriving DecidableEq, Repr
 
 inductive Arg where
-  | base | newDir | newDirFile | fileBytes | targetNew | target | prev | perm
+  | base | newDir | newDirName | newDirFile | fileBytes | targetNew | target | prev | perm
   deriving DecidableEq, Repr
 
 inductive Ctx where
